@@ -337,3 +337,61 @@ pub fn xmatrix() {
         }
     }
 }
+
+
+/// Header and body helpers that the endpoints share: Content-Disposition with every file name over a reserved-character
+/// alphabet must survive format -> parse -> format, and a filter in which a single field differs from the default must survive
+/// both as a JSON body and as the `filter` query parameter of a real endpoint.
+pub fn shared() {
+    use ruma_common::http_headers::{ContentDisposition, ContentDispositionType};
+    let alpha = ["a", " ", "\"", "\\", "'", ";", "%", "\u{e9}", "\u{20ac}", "*", "=", "/", ".", "\u{5b57}", "(", ","];
+    let mut names: Vec<String> = vec!["report.pdf".into(), "l'\u{e9}t\u{e9}.png".into(), "a b;c=d.txt".into(), "100%.txt".into(), "\u{5b57}'\"x\".txt".into()];
+    for x in alpha {
+        names.push(x.to_string());
+        for y in alpha {
+            names.push(format!("{x}{y}"));
+            names.push(format!("f{x}{y}.txt"));
+        }
+    }
+    for ty in [ContentDispositionType::Inline, ContentDispositionType::Attachment] {
+        for n in &names {
+            let r = guard(|| {
+                let cd = ContentDisposition::new(ty.clone()).with_filename(Some(n.clone()));
+                let text = cd.to_string();
+                let back = text.parse::<ContentDisposition>();
+                let ok = matches!(&back, Ok(b) if b.disposition_type == cd.disposition_type && b.filename == cd.filename);
+                let again = back.ok().map(|b| b.to_string() == text).unwrap_or(false);
+                json!({"kind0": "shared", "what": "content-disposition", "value": n, "text": text, "ok": ok && again})
+            });
+            put(&r.unwrap_or_else(|p| json!({"kind0": "shared", "what": "content-disposition", "value": n, "ok": false, "panic": p})));
+        }
+    }
+    // filters: every field alone
+    use ruma_client_api::filter::{FilterDefinition, RoomEventFilter};
+    let full = json!({"limit": 5, "not_senders": ["@a:s.co"], "not_types": ["m.x"], "senders": ["@b:s.co"], "types": ["m.y"], "not_rooms": ["!a:s.co"], "rooms": ["!b:s.co"],
+                      "contains_url": true, "lazy_load_members": true, "include_redundant_members": true, "unread_thread_notifications": true});
+    for (k, v) in full.as_object().unwrap() {
+        let mut single = serde_json::Map::new();
+        single.insert(k.clone(), v.clone());
+        if k == "include_redundant_members" {
+            single.insert("lazy_load_members".into(), json!(true));
+        }
+        let single = Value::Object(single);
+        let r = guard(|| {
+            // as a JSON body inside a filter definition
+            let fd: FilterDefinition = serde_json::from_value(json!({"room": {"timeline": single.clone(), "state": single.clone()}})).unwrap();
+            let body = serde_json::to_value(&fd).unwrap();
+            let body_ok = body["room"]["timeline"] == single && body["room"]["state"] == single;
+            // as the `filter` query parameter of GET /rooms/{roomId}/messages
+            let f: RoomEventFilter = serde_json::from_value(single.clone()).unwrap();
+            let mut req = ruma_client_api::message::get_message_events::v3::Request::backward(ruma_common::OwnedRoomId::try_from("!r:s.co").unwrap());
+            req.filter = f.clone();
+            let http: http::Request<Vec<u8>> = req.try_into_http_request("https://h.s", SendAccessToken::IfRequired("tok"), &[MatrixVersion::V1_11]).unwrap();
+            let query = http.uri().query().unwrap_or("").to_owned();
+            let back = ruma_client_api::message::get_message_events::v3::Request::try_from_http_request(http, &["!r:s.co"]).unwrap();
+            let query_ok = serde_json::to_value(&back.filter).unwrap() == single;
+            json!({"kind0": "shared", "what": format!("filter-field-{k}"), "value": single, "text": query, "ok": body_ok && query_ok, "body": body})
+        });
+        put(&r.unwrap_or_else(|p| json!({"kind0": "shared", "what": format!("filter-field-{k}"), "ok": false, "panic": p})));
+    }
+}
